@@ -27,6 +27,9 @@ type PoolCase struct {
 	RelEach int     `json:"relEach,omitempty"` // skipdec: Release after every k values
 	CoEvery int     `json:"coEvery"`           // run the co-tenant after every k-th operation (0 = never)
 	PowCap  bool    `json:"powCap,omitempty"`  // caller memory with power-of-two capacity
+	// Companion: a second reader / writer of the same kind lives next to the instance under test and grows, hands out and
+	// releases on its own schedule between the instance's operations; for the ownership rules it is a co-tenant
+	Companion bool `json:"companion,omitempty"`
 }
 
 // dataSource serves a fixed byte string under a chunk schedule, optionally with the final data delivered together with EOF.
@@ -192,13 +195,39 @@ func runPoolReader(pc *PoolCase, w *TraceWriter, rec *poolRec) {
 	}
 	var live []liveSlice
 	sid := 0
+	var comp bufiox.Reader
+	compOps := []RdOp{{"next", 5000}, {"release", 0}, {"next", 100}, {"next", 9000}, {"next", 20000}, {"release", 0}, {"next", 4097}, {"next", 40000}, {"release", 0}}
+	companion := func(i int) {
+		if !pc.Companion {
+			return
+		}
+		rec.actor = "co"
+		defer func() { rec.actor = "inst" }()
+		if comp == nil {
+			comp = bufiox.NewDefaultReader(&patSource{seed: 77, S: 1 << 22, fk: "EOF", quiet: true})
+		}
+		if op := compOps[i%len(compOps)]; op.Op == "release" {
+			comp.Release(nil)
+		} else {
+			comp.Next(op.N)
+		}
+	}
+	defer func() {
+		if comp != nil {
+			rec.actor = "co"
+			comp.Release(nil)
+			rec.actor = "inst"
+		}
+	}()
 	for i, op := range cs.Ops {
+		companion(2 * i)
 		switch op.Op {
 		case "release":
 			checkLive(w, live)
 			w.Ev("epoch", "why", "release")
 			live = nil
 			r.Release(nil)
+			companion(2*i + 1)
 		case "next", "peek":
 			var b []byte
 			var err error
@@ -508,7 +537,7 @@ func genPoolCases(c *Ctx) []json.RawMessage {
 		default:
 			cs.Chunks = []int{500 + rng.Intn(9000), 0}
 		}
-		pcase := PoolCase{Kind: "reader", Rd: cs, CoEvery: rng.Intn(4)}
+		pcase := PoolCase{Kind: "reader", Rd: cs, CoEvery: rng.Intn(4), Companion: i%3 == 0}
 		if rng.Intn(3) == 0 {
 			cs.Fl = "bytes"
 			cs.S = []int{0, 10, 16, 4096, 5000, 8192, 20000}[rng.Intn(7)]
@@ -582,7 +611,7 @@ func genPoolCases(c *Ctx) []json.RawMessage {
 }
 
 func checkC09(c *Ctx) {
-	c.rule = "MC: the grow-and-park / release / flush life-cycle of reader, bytes reader, writer, bytes writer and ReaderSkipDecoder, composed with a co-tenant over 3 pool buffers, keeps the ownership invariants under every interleaving (9 steps). APALACHE: the invariants plus a strengthening (Ind_BufPool.tla) are inductive for every kind, 4 buffers, runs of any length (base, step, negative control, probes). TLAPS: Proof_BufPool.tla proves MCSpec => []IndInv for an arbitrary set of pool buffers (41 obligations; a negative control must fail). TRACE: real histories over the instrumented pool double (registry, poison-on-free, foreign/double-free detection) that retain every handed-out slice across later operations, with the co-tenant draining and scribbling every size class between operations; every pool event must be an enabled BufPool action (P1..P5) and every content/caller-memory/disjointness monitor event must be ok."
+	c.rule = "MC: the grow-and-park / release / flush life-cycle of reader, bytes reader, writer, bytes writer and ReaderSkipDecoder, composed with a co-tenant over 3 pool buffers, keeps the ownership invariants under every interleaving (9 steps). APALACHE: the invariants plus a strengthening (Ind_BufPool.tla) are inductive for every kind, 4 buffers, runs of any length (base, step, negative control, probes). TLAPS: Proof_BufPool.tla proves MCSpec => []IndInv for an arbitrary set of pool buffers (41 obligations; a negative control must fail). TRACE: real histories over the instrumented pool double (registry, poison-on-free, foreign/double-free detection) that retain every handed-out slice across later operations, with the co-tenant draining and scribbling every size class between operations, and a second live reader growing / releasing on its own schedule next to the one under test; every pool event must be an enabled BufPool action (P1..P5) and every content/caller-memory/disjointness monitor event must be ok."
 	for _, k := range []string{"reader", "bytesreader", "writer", "byteswriter", "decoder"} {
 		c.MC("MC_BufPool.tla", "MC_BufPool_"+k+".cfg", 4)
 	}
